@@ -69,6 +69,7 @@ func (t *TranslateArgs) UnmarshalNBT(tagType byte, r nbt.DecoderReader) error {
 	decoder := nbt.NewDecoder(io.MultiReader(tagReader, r))
 	decoder.NetworkFormat(true) // TagType directlly followed the body
 
+	*t = nil // decoding into used arguments replaces them
 	switch tagType {
 	case nbt.TagList:
 		var value []Message
